@@ -2,7 +2,7 @@
 
 * a heap is a list of *regions* (one per Go backing array, never reused: ids are positions);
   a region has a capacity and `cap` bytes of content (bytes beyond a handle's length are the
-  stale bytes a later `Realloc`/reslice exposes);
+  stale bytes a later `Realloc`/reslice exposes) and a ghost `owner` (who may touch it);
 * a *handle* is what the client holds: `(region, len)`; the table `live` maps the client's names
   to handles;
 * `sync.Pool` is a bag of `(tag, class, region)` entries; what `Get` returns is an **input**
@@ -14,15 +14,23 @@
 Every Go function is mirrored paragraph by paragraph:
 `MemPool.{Malloc,Realloc,Append,AppendString,Free}` (mempool.go),
 `AlignedAllocator.{Malloc,Realloc,Append,AppendString,Free}` (aligned_allocator.go),
-`stdAllocator.{…}` (std_allocator.go).  `AppendString` is `Append` on the string's bytes. -/
+`stdAllocator.{…}` (std_allocator.go).  `AppendString` is `Append` on the string's bytes.
+
+The `owner` field is ghost state: no function reads it; it records which client handle (or which
+pool entry) a backing array currently belongs to and is what the disjointness and frame theorems
+are stated with. -/
 namespace Alloc
 
 abbrev Bytes := List UInt8
 
+inductive Owner | none | live (h : Nat) | pooled (tag cls : Nat)
+  deriving Repr, DecidableEq
+
 structure Region where
   cap   : Nat
   bytes : Bytes          -- length = cap (invariant)
-  deriving Repr, BEq
+  owner : Owner := .none -- ghost
+  deriving Repr, DecidableEq
 
 structure Handle where
   rid : Nat
@@ -49,7 +57,7 @@ structure St where
   regions : List Region := []
   pool    : List PEnt := []
   live    : List (Nat × Handle) := []       -- client's handle name ↦ handle
-  deriving Repr
+  deriving Repr, DecidableEq
 
 inductive Choice | fresh | reuse (tag : Nat)
   deriving Repr
@@ -67,35 +75,48 @@ def zeros (n : Nat) : Bytes := List.replicate n 0
 
 /-! ### heap primitives -/
 
-def St.region (s : St) (rid : Nat) : Region := s.regions.getD rid ⟨0, []⟩
+def St.region (s : St) (rid : Nat) : Region := s.regions.getD rid ⟨0, [], .none⟩
+
+/-- replace region `rid` by `f` of it -/
+def St.modify (s : St) (rid : Nat) (f : Region → Region) : St :=
+  { s with regions := s.regions.set rid (f (s.region rid)) }
 
 /-- a new backing array of capacity `cap` whose first bytes are `init`, the rest zero -/
 def St.alloc (s : St) (cap : Nat) (init : Bytes) : St × Nat :=
-  ({ s with regions := s.regions ++ [⟨cap, (init ++ zeros cap).take cap⟩] }, s.regions.length)
+  ({ s with regions := s.regions ++ [⟨cap, (init ++ zeros cap).take cap, .none⟩] }, s.regions.length)
+
+def overwrite (b : Bytes) (off : Nat) (data : Bytes) : Bytes :=
+  b.take off ++ data ++ b.drop (off + data.length)
 
 /-- overwrite `data.length` bytes of region `rid` starting at `off` (a Go `copy` / in-place append) -/
 def St.write (s : St) (rid off : Nat) (data : Bytes) : St :=
-  let r := s.region rid
-  let r' : Region := ⟨r.cap, r.bytes.take off ++ data ++ r.bytes.drop (off + data.length)⟩
-  { s with regions := s.regions.set rid r' }
+  s.modify rid fun r => { r with bytes := overwrite r.bytes off data }
+
+/-- ghost: record who owns region `rid` -/
+def St.own (s : St) (rid : Nat) (o : Owner) : St := s.modify rid fun r => { r with owner := o }
 
 def St.lookup (s : St) (h : Nat) : Option Handle := (s.live.find? (·.1 == h)).map (·.2)
 def St.remove (s : St) (h : Nat) : St := { s with live := s.live.filter (·.1 != h) }
-def St.bind (s : St) (h : Nat) (x : Handle) : St := { s with live := (h, x) :: s.live.filter (·.1 != h) }
+def St.bind (s : St) (h : Nat) (x : Handle) : St :=
+  { s.own x.rid (.live h) with live := (h, x) :: s.live.filter (·.1 != h) }
 
 /-- the client's view of a handle: the first `len` bytes of its region -/
 def St.read (s : St) (h : Nat) : Option Bytes :=
   (s.lookup h).map fun x => (s.region x.rid).bytes.take x.len
 
+def PEnt.is (tag cls : Nat) (e : PEnt) : Bool := e.tag == tag && e.cls == cls
+
 /-- `pool.Get()` of pool `cls` whose `New` makes `newCap` zero bytes -/
 def poolGet (s : St) (cls newCap : Nat) : Choice → Except Err (St × Nat)
   | .fresh => .ok (s.alloc newCap [])
   | .reuse tag =>
-    match s.pool.find? (fun e => e.tag == tag && e.cls == cls) with
-    | some e => .ok ({ s with pool := s.pool.filter (fun e => !(e.tag == tag && e.cls == cls)) }, e.rid)
+    match s.pool.find? (PEnt.is tag cls) with
+    | some e => .ok (({ s with pool := s.pool.filter (fun e => !PEnt.is tag cls e) } : St).own e.rid .none, e.rid)
     | none => .error .bad            -- the implementation handed out memory that is not in this pool
 
-def poolPut (s : St) (cls tag rid : Nat) : St := { s with pool := ⟨tag, cls, rid⟩ :: s.pool }
+/-- `pool.Put` -/
+def poolPut (s : St) (cls tag rid : Nat) : St :=
+  { s.own rid (.pooled tag cls) with pool := ⟨tag, cls, rid⟩ :: s.pool }
 
 /-- Go `append(buf[:keep], more...)` on region `rid`: in place when the capacity suffices, else a new
     backing array of capacity `grow` (input) holding `buf[:keep] ++ more`, zero beyond -/
@@ -108,40 +129,45 @@ def goAppend (s : St) (rid keep : Nat) (more : Bytes) (grow : Nat) : Except Err 
 /-! ### MemPool (mempool.go) -/
 
 /-- `pbuf := pool.Get(); n := cap; if n < size { append((*pbuf)[:n], make(size-n)...) }` -/
-def mpGet (g : Cfg) (s : St) (size : Nat) (c : Choice) (grow : Nat) : Except Err (St × Nat) := do
-  let (s, rid) ← poolGet s 0 g.bufSize c
-  let n := (s.region rid).cap
-  if n < size then goAppend s rid n (zeros (size - n)) grow else pure (s, rid)
+def mpGet (g : Cfg) (s : St) (size : Nat) (c : Choice) (grow : Nat) : Except Err (St × Nat) :=
+  match poolGet s 0 g.bufSize c with
+  | .error e => .error e
+  | .ok (s, rid) =>
+    let n := (s.region rid).cap
+    if n < size then goAppend s rid n (zeros (size - n)) grow else .ok (s, rid)
 
 /-- `Free`: `cap > 0`, `cap ≤ freeSize` ⇒ `pool.Put` -/
 def mpFree (g : Cfg) (s : St) (x : Handle) (tag : Nat) : St :=
   let cap := (s.region x.rid).cap
-  if cap > 0 && cap ≤ g.freeSize then poolPut s 0 tag x.rid else s
+  if 0 < cap ∧ cap ≤ g.freeSize then poolPut s 0 tag x.rid else s
 
 def mpMalloc (g : Cfg) (s : St) (size : Nat) (c : Choice) (grow : Nat) : Except Err (St × Handle) :=
   if size > g.freeSize then
-    let (s, rid) := s.alloc size []
-    .ok (s, ⟨rid, size⟩)
-  else do
-    let (s, rid) ← mpGet g s size c grow
-    pure (s, ⟨rid, size⟩)
+    .ok ((s.alloc size []).1, ⟨(s.alloc size []).2, size⟩)
+  else
+    match mpGet g s size c grow with
+    | .error e => .error e
+    | .ok (s, rid) => .ok (s, ⟨rid, size⟩)
 
 def mpRealloc (g : Cfg) (s : St) (x : Handle) (size : Nat) (c : Choice) (grow tag : Nat) :
     Except Err (St × Handle) :=
   let r := s.region x.rid
   if size ≤ r.cap then .ok (s, ⟨x.rid, size⟩)
-  else if r.cap < g.freeSize then do
-    let old := r.bytes.take x.len
-    let (s, rid) ← mpGet g s size c grow
-    let s := s.write rid 0 old                       -- copy(*newBufPtr, *pbuf)
-    pure (mpFree g s x tag, ⟨rid, size⟩)
-  else do
-    let (s, rid) ← goAppend s x.rid r.cap (zeros (size - r.cap)) grow
-    pure (s, ⟨rid, size⟩)
+  else if r.cap < g.freeSize then
+    match mpGet g s size c grow with
+    | .error e => .error e
+    | .ok (s', rid) =>
+      -- copy(*newBufPtr, *pbuf); mp.Free(pbuf)
+      .ok (mpFree g (s'.write rid 0 (r.bytes.take x.len)) x tag, ⟨rid, size⟩)
+  else
+    match goAppend s x.rid r.cap (zeros (size - r.cap)) grow with
+    | .error e => .error e
+    | .ok (s', rid) => .ok (s', ⟨rid, size⟩)
 
-def mpAppend (s : St) (x : Handle) (more : Bytes) (grow : Nat) : Except Err (St × Handle) := do
-  let (s, rid) ← goAppend s x.rid x.len more grow
-  pure (s, ⟨rid, x.len + more.length⟩)
+def mpAppend (s : St) (x : Handle) (more : Bytes) (grow : Nat) : Except Err (St × Handle) :=
+  match goAppend s x.rid x.len more grow with
+  | .error e => .error e
+  | .ok (s', rid) => .ok (s', ⟨rid, x.len + more.length⟩)
 
 /-! ### AlignedAllocator (aligned_allocator.go) -/
 
@@ -149,55 +175,51 @@ def minAligned : Nat := 32
 def maxAligned : Nat := 32768
 def nClasses : Nat := 11
 
+def classSize (i : Nat) : Nat := minAligned <<< i
+
 /-- `alignedIndexes[size]` for `size ≤ maxAligned`: the first class whose size is ≥ `size` -/
 def classOfAux (size : Nat) : Nat → Nat → Nat
   | 0, i => i
-  | fuel + 1, i => if size ≤ minAligned <<< i then i else classOfAux size fuel (i + 1)
+  | fuel + 1, i => if size ≤ classSize i then i else classOfAux size fuel (i + 1)
 def classOf (size : Nat) : Nat := classOfAux size (nClasses - 1) 0
-def classSize (i : Nat) : Nat := minAligned <<< i
 
 /-- `Malloc`: class pool and reslice `[:size]` (a reslice beyond the capacity panics), or `make` -/
 def alMalloc (s : St) (size : Nat) (c : Choice) : Except Err (St × Handle) :=
-  if size ≤ maxAligned then do
-    let idx := classOf size
-    let (s, rid) ← poolGet s idx (classSize idx) c
-    if size ≤ (s.region rid).cap then pure (s, ⟨rid, size⟩) else .error .panic
+  if size ≤ maxAligned then
+    match poolGet s (classOf size) (classSize (classOf size)) c with
+    | .error e => .error e
+    | .ok (s', rid) => if size ≤ (s'.region rid).cap then .ok (s', ⟨rid, size⟩) else .error .panic
   else
-    let (s, rid) := s.alloc size []
-    .ok (s, ⟨rid, size⟩)
+    .ok ((s.alloc size []).1, ⟨(s.alloc size []).2, size⟩)
 
 /-- `Free`: only capacities that are multiples of 32 and ≤ 32 KiB are pooled, under `alignedIndexes[cap]` -/
 def alFree (s : St) (x : Handle) (tag : Nat) : St :=
   let cap := (s.region x.rid).cap
-  if cap % minAligned != 0 || cap > maxAligned then s else poolPut s (classOf cap) tag x.rid
+  if cap % minAligned ≠ 0 ∨ cap > maxAligned then s else poolPut s (classOf cap) tag x.rid
 
 def alRealloc (s : St) (x : Handle) (size : Nat) (c : Choice) (tag : Nat) : Except Err (St × Handle) :=
   let r := s.region x.rid
   if size ≤ r.cap then .ok (s, ⟨x.rid, size⟩)
-  else do
-    let old := r.bytes.take x.len
-    let (s, y) ← alMalloc s size c
-    let s := s.write y.rid 0 old
-    pure (alFree s x tag, y)
+  else
+    match alMalloc s size c with
+    | .error e => .error e
+    | .ok (s', y) => .ok (alFree (s'.write y.rid 0 (r.bytes.take x.len)) x tag, y)
 
 def alAppend (s : St) (x : Handle) (more : Bytes) (c : Choice) (tag : Nat) : Except Err (St × Handle) :=
   let r := s.region x.rid
   if more.length ≤ r.cap - x.len then .ok (s.write x.rid x.len more, ⟨x.rid, x.len + more.length⟩)
-  else do
-    let old := r.bytes.take x.len
-    let (s, y) ← alMalloc s (x.len + more.length) c
-    let s := s.write y.rid 0 old
-    let s := s.write y.rid x.len more
-    pure (alFree s x tag, y)
+  else
+    match alMalloc s (x.len + more.length) c with
+    | .error e => .error e
+    | .ok (s', y) =>
+      .ok (alFree ((s'.write y.rid 0 (r.bytes.take x.len)).write y.rid x.len more) x tag, y)
 
 /-! ### stdAllocator (std_allocator.go) -/
 
 def sdRealloc (s : St) (x : Handle) (size : Nat) : St × Handle :=
   let r := s.region x.rid
   if size ≤ r.cap then (s, ⟨x.rid, size⟩)
-  else
-    let (s, rid) := s.alloc size (r.bytes.take x.len)
-    (s, ⟨rid, size⟩)
+  else ((s.alloc size (r.bytes.take x.len)).1, ⟨(s.alloc size (r.bytes.take x.len)).2, size⟩)
 
 /-! ### the client's operations -/
 
@@ -213,7 +235,7 @@ def doMalloc (g : Cfg) (s : St) (size : Nat) (c : Choice) (grow : Nat) : Except 
   match g.kind with
   | .pool => mpMalloc g s size c grow
   | .aligned => alMalloc s size c
-  | .std => let (s, rid) := s.alloc size []; .ok (s, ⟨rid, size⟩)
+  | .std => .ok ((s.alloc size []).1, ⟨(s.alloc size []).2, size⟩)
 
 def doAppend (g : Cfg) (s : St) (x : Handle) (more : Bytes) (c : Choice) (grow tag : Nat) :
     Except Err (St × Handle) :=
@@ -241,9 +263,10 @@ def step (g : Cfg) (s : St) : Op → Except Err St
   | .malloc h size c grow =>
     match s.lookup h with
     | some _ => .error .bad
-    | none => do
-      let (s, x) ← doMalloc g s size c grow
-      pure (s.bind h x)
+    | none =>
+      match doMalloc g s size c grow with
+      | .error e => .error e
+      | .ok (s', x) => .ok (s'.bind h x)
   | .write h off data =>
     match s.lookup h with
     | none => .error .bad
@@ -251,15 +274,17 @@ def step (g : Cfg) (s : St) : Op → Except Err St
   | .append h more c grow tag =>
     match s.lookup h with
     | none => .error .bad
-    | some x => do
-      let (s, y) ← doAppend g s x more c grow tag
-      pure (s.bind h y)
+    | some x =>
+      match doAppend g s x more c grow tag with
+      | .error e => .error e
+      | .ok (s', y) => .ok (s'.bind h y)
   | .realloc h size c grow tag =>
     match s.lookup h with
     | none => .error .bad
-    | some x => do
-      let (s, y) ← doRealloc g s x size c grow tag
-      pure (s.bind h y)
+    | some x =>
+      match doRealloc g s x size c grow tag with
+      | .error e => .error e
+      | .ok (s', y) => .ok (s'.bind h y)
   | .free h tag =>
     match s.lookup h with
     | none => .error .bad
